@@ -295,6 +295,25 @@ def run(rep):
                     rep.evaluations += 1
                     if why:
                         rep.violation({'kind': 'roundtrip', 'clause': 'to_cache-changed-the-saved-object:' + why, 'loader': kind, 'args': a, 'mode': mode})
+        # ---- two different vasprun files in ONE directory whose names agree up to the first dot (vasprun.300K.xml / vasprun.400K.xml):
+        # each is loaded twice, in both orders; a source file never gets the other one's trajectory
+        from gemdat import Trajectory as _T2
+        vdir = root / 'two_runs'
+        vdir.mkdir()
+        io_synth.write_vasprun(vdir / 'vasprun.300K.xml', T=5, scale=True)
+        io_synth.write_vasprun(vdir / 'vasprun.400K.xml', T=7, scale=True)
+        io_synth.write_vasprun(vdir / 'run.final.v2.xml', T=4, scale=True)
+        names = ['vasprun.300K.xml', 'vasprun.400K.xml', 'run.final.v2.xml']
+        with contextlib.redirect_stdout(io.StringIO()):
+            ref = {nm: _T2.from_vasprun(vdir / nm, cache=root / f'ref-{nm}.cache') for nm in names}
+            for order in (names, names[::-1], names):
+                for nm in order:
+                    t = _T2.from_vasprun(vdir / nm)
+                    why = same(t, ref[nm])
+                    rep.evaluations += 1
+                    if why:
+                        rep.violation({'kind': 'fault', 'clause': 'source-files-with-similar-names-share-a-cache:' + why, 'loader': 'vasprun', 'file': nm,
+                                       'caches': sorted(p_.name for p_ in vdir.glob('*.cache'))})
         # ---- the same cache path written twice with different content, read after each write; and read twice
         for kind, ld in loaders.items():
             keys = list(ld.fresh)
